@@ -11,6 +11,7 @@ payloads (get_argspec_string -> spec_buf[2048]): hostile bytes in strings and ch
 marker, std::string, pointers that resolve to symbols with hostile names, the printf formats, and
 value lists whose text is around / beyond the 2048 bytes of the buffer."""
 import concurrent.futures
+import decimal
 import json
 import os
 import re
@@ -458,11 +459,22 @@ def gen_calls(rng, nsym, nrec, maxdepth, leave_open):
     return recs
 
 
+SCHED, SCHED_PRE = b"linux:schedule", b"linux:schedule (pre-empted)"
+
+
+def perf_switch(pid, tid, t, out, preempt=False):
+    """a PERF_RECORD_SWITCH of perf-cpuN.dat (utils/perf.h): header, then sample_id {pid, tid, time}"""
+    misc = (0x2000 if out else 0) | (0x4000 if (out and preempt) else 0)
+    return struct.pack("<IHH", 14, misc, 24) + struct.pack("<IIQ", pid, tid, t)
+
+
 class Trace:
     """abstract description of one data directory"""
 
     def __init__(self, names, tasks, recs, exename=b"/synth/prog", cmdline=b"uftrace record ./prog",
-                 elapsed="0.001000000 sec", desc="", filtered=False, argfns=None):
+                 elapsed="0.001000000 sec", desc="", filtered=False, argfns=None, sched=None):
+        # scheduling events of the tasks (perf-cpu0.dat): [tid, time of sched-out, time of sched-in, pre-empted]
+        self.sched = [list(x) for x in (sched or [])]
         self.filtered = filtered      # run dump --chrome with -t 1s: every record is filtered out
         self.names = names            # symidx -> bytes (several symbols may share a name)
         self.tasks = tasks            # [(tid, pid)]
@@ -474,13 +486,29 @@ class Trace:
     def to_json(self):
         return {"names": [n.hex() for n in self.names], "tasks": self.tasks, "recs": self.recs,
                 "exename": self.exename.hex(), "cmdline": self.cmdline.hex(), "elapsed": self.elapsed,
-                "desc": self.desc, "filtered": self.filtered, "argfns": {str(k): v for k, v in self.argfns.items()}}
+                "desc": self.desc, "filtered": self.filtered, "argfns": {str(k): v for k, v in self.argfns.items()},
+                "sched": self.sched}
 
     @staticmethod
     def from_json(j):
         return Trace([bytes.fromhex(n) for n in j["names"]], [tuple(t) for t in j["tasks"]],
                      [tuple(r) for r in j["recs"]], bytes.fromhex(j["exename"]), bytes.fromhex(j["cmdline"]),
-                     j["elapsed"], j.get("desc", ""), j.get("filtered", False), j.get("argfns"))
+                     j["elapsed"], j.get("desc", ""), j.get("filtered", False), j.get("argfns"), j.get("sched"))
+
+    def view(self, chrome):
+        """the trace with its scheduling events written as calls: sched-out opens linux:schedule, sched-in closes
+        it (cmds/dump.c dump_replay_event; utils/graph.c add_graph_event names the node of a pre-empted one
+        "linux:schedule (pre-empted)", dump --chrome prints linux:schedule for both).  The entry of a pre-empted
+        schedule has kind "P"."""
+        if not self.sched:
+            return self
+        s0, s1 = len(self.names), len(self.names) + 1
+        extra = []
+        for tid, to, ti, pre in self.sched:
+            extra += [("P" if pre else "E", tid, s1 if pre else s0, to), ("X", tid, s1 if pre else s0, ti)]
+        recs = sorted([tuple(r) for r in self.recs] + extra, key=lambda r: r[3])
+        return Trace(self.names + [SCHED, SCHED if chrome else SCHED_PRE], self.tasks, recs, self.exename, self.cmdline,
+                     self.elapsed, self.desc, self.filtered)
 
     def has_args(self):
         return bool(self.argfns)
@@ -527,10 +555,17 @@ class Trace:
                 rspec.append(nm + "@retval" + spec_text(fn["ret"]))
         dd = Dir(syms, tasks, cmdline=s2(self.cmdline), exename=s2(self.exename),
                  extra_info={"elapsed_time": self.elapsed}, record_date=record_date,
-                 argspec=";".join(aspec), retspec=";".join(rspec))
+                 argspec=";".join(aspec), retspec=";".join(rspec), feat_extra=(0x100 if self.sched else 0))
         shutil.rmtree(d, ignore_errors=True)
         os.makedirs(d)
-        for n, b in dd.files().items():
+        files = dd.files()
+        if self.sched:
+            pid_of = dict(self.tasks)
+            evs = []
+            for tid, to, ti, pre in self.sched:
+                evs += [(to, perf_switch(pid_of[tid], tid, to, True, pre)), (ti, perf_switch(pid_of[tid], tid, ti, False))]
+            files["perf-cpu0.dat"] = b"".join(b for _, b in sorted(evs))
+        for n, b in files.items():
             with open(os.path.join(d.encode(), n.encode("utf-8", "surrogateescape")), "wb") as f:
                 f.write(b)
         os.utime(os.path.join(d, "info"), (T_INFO, T_INFO))
@@ -538,31 +573,57 @@ class Trace:
     def visible(self):
         return [] if self.filtered else self.recs
 
-    def model_tail(self, with_args=False):
+    def model_tail(self, with_args=False, asis=False):
+        """asis: the entries of pre-empted schedules as dump_replay_event treats them now (kind P); else as calls"""
         syms = " ".join(hx(n) for n in self.names)
         tasks = " ".join("%d:%d" % t for t in self.tasks)
         if not with_args:
-            recs = " ".join("%s:%d:%d:%d" % tuple(r[:4]) for r in self.visible())
+            recs = " ".join("%s:%d:%d:%d" % ((r[0] if (asis or r[0] != "P") else "E",) + tuple(r[1:4])) for r in self.visible())
             return "| %s | %s | %s" % (syms, tasks, recs)
         toks, lists = [], []
         for r in self.visible():
             vals = self.vals_of(r)
             if vals is None:
-                toks.append("%s:%d:%d:%d" % tuple(r[:4]))
+                toks.append("%s:%d:%d:%d" % ((r[0] if (asis or r[0] != "P") else "E",) + tuple(r[1:4])))
             else:
                 toks.append("%s:%d:%d:%d:%d" % (tuple(r[:4]) + (len(lists),)))
                 lists.append(",".join(value_token(self.names, sp, v) for sp, v in zip(self.specs_of(r), vals)) or "-")
         return "| %s | %s | %s | %s" % (syms, tasks, " ".join(toks), " ".join(lists))
 
 
-def gen_trace(rng, names=None, ntasks=None, nrec=None, desc="random", ties=False):
+# ---- numeric range of the synthesized data ------------------------------------------------
+# Record times are uint64 nanoseconds of CLOCK_MONOTONIC: a host that has been up for 104 days is past
+# 2^53 ns.  Times, durations and task ids are drawn from classes that sit on the boundaries of the C
+# types that carry them (int, unsigned, double's 53-bit mantissa, int64, uint64) and of the units the
+# printers switch between (us / ms / s / m / h).  Everything is exact integer arithmetic (Python int).
+U64 = (1 << 64) - 1
+TMAX = U64 - 1           # 2^64-1 is the readers' "no more records" value (fstack: min_timestamp = ~0ULL): never a record time
+SEC, MIN, HOUR = 10 ** 9, 60 * 10 ** 9, 3600 * 10 ** 9
+SMALL_INCS = [0, 1, 7, 40, 333, 999, 1000, 1001, 2500, 12345]
+WIDE_INCS = [0, 1, 999, 1000, 1001, 999999, 10 ** 6, 2 ** 31 - 1, 2 ** 31, 2 ** 32 - 1, 2 ** 32, 2 ** 32 + 1, SEC - 1, SEC,
+             59 * SEC + 999999999, MIN, MIN + SEC, 23 * MIN + 59 * SEC, 24 * MIN, 24 * MIN + 1, 30 * MIN, 59 * MIN + 59 * SEC,
+             HOUR, HOUR + MIN + 5, 25 * HOUR, 100 * HOUR + 7, 2 ** 48 + 12345]
+TIMINGS = ["small", "small", "base", "base", "base", "wide", "wide", "top"]
+TID_BASES = [100, 4242, 31000, 4194000, 2 ** 31 - 8]
+
+
+def gen_base(rng):
+    """a first time stamp next to a boundary (the trace crosses it), or months / years of uptime"""
+    k = rng.randrange(40000)
+    return rng.choice([2 ** 31 - k, 2 ** 32 - k, 2 ** 53 - k, 2 ** 53 + 1 + k, 2 ** 53 + rng.randrange(2 ** 53),
+                       104 * 24 * HOUR + rng.randrange(HOUR), 400 * 24 * HOUR + rng.randrange(10 ** 15),
+                       2 ** 63 - k, 2 ** 63 + 1 + k, 2 ** 63 + rng.randrange(2 ** 62)])
+
+
+def gen_trace(rng, names=None, ntasks=None, nrec=None, desc="random", ties=False, timing=None):
     if names is None:
         k = rng.randint(2, 7)
         names = [gen_name(rng) for _ in range(k)]
         if rng.random() < 0.3:
             names.append(names[0])                 # two symbols with one name
     ntasks = ntasks or rng.choice([1, 1, 2, 3, 4])
-    base = rng.choice([100, 4242, 31000])
+    timing = timing or rng.choice(TIMINGS)
+    base = rng.choice([100, 4242, 31000]) if timing == "small" else rng.choice(TID_BASES)
     tasks = []
     for i in range(ntasks):
         tid = base + i
@@ -574,18 +635,36 @@ def gen_trace(rng, names=None, ntasks=None, nrec=None, desc="random", ties=False
         per.append(gen_calls(rng, len(names), n, rng.choice([2, 4, 9]), rng.random() < 0.5))
     # interleave with one global clock; zero increments allowed inside one task only
     idx = [0] * ntasks
-    t = 2000 + rng.randrange(1000)
-    recs, lasttask = [], None
+    order, lasttask = [], None
     while any(idx[i] < len(per[i]) for i in range(ntasks)):
         i = rng.choice([j for j in range(ntasks) if idx[j] < len(per[j])])
-        inc = rng.choice([0, 1, 7, 40, 333, 999, 1000, 1001, 2500, 12345])
+        if timing == "wide" or (timing == "top" and rng.random() < 0.3):
+            inc = rng.choice(WIDE_INCS) if rng.random() < 0.5 else rng.choice(SMALL_INCS)
+        else:
+            inc = rng.choice(SMALL_INCS)
         if inc == 0 and lasttask != i and not ties:
             inc = 1
+        order.append((i, inc))
+        idx[i] += 1
+        lasttask = i
+    span = sum(inc for _, inc in order)
+    if timing == "small":
+        t = 2000 + rng.randrange(1000)
+    elif timing == "top":
+        t = TMAX - span - rng.choice([0, 0, 1, 999, 12345])       # the last record is stamped 2^64-2 (or just below)
+    elif timing == "wide" and rng.random() < 0.5:
+        t = 2000 + rng.randrange(1000)
+    else:
+        t = gen_base(rng)
+    assert 0 < t and t + span <= TMAX
+    idx = [0] * ntasks
+    recs = []
+    for i, inc in order:
         t += inc
         kind, s = per[i][idx[i]]
         idx[i] += 1
         recs.append((kind, tasks[i][0], s, t))
-        lasttask = i
+    desc = "%s [%s]" % (desc, timing)
     if ties:
         # equal time stamps in different tasks: the reader takes the task that comes first in info.tids
         order = {tid: k for k, (tid, _) in enumerate(tasks)}
@@ -594,6 +673,38 @@ def gen_trace(rng, names=None, ntasks=None, nrec=None, desc="random", ties=False
     el = rng.choice(["0.001000000 sec", "0.900000000 sec", "1.500000000 sec", "12.000000001 sec", "150.5 sec"])
     return Trace(names, tasks, recs, exe, gen_cmdline(rng, exe), el, desc)
 
+
+
+def boundary_time_traces():
+    """records 1 ns apart that straddle 2^31, 2^32, 2^53, 2^63 and end at 2^64-2; durations on the unit switches"""
+    out = []
+    A = [b"main", b"foo", b"bar"]
+    for nm, B in (("2^31", 2 ** 31), ("2^32", 2 ** 32), ("2^53", 2 ** 53), ("2^63", 2 ** 63), ("2^64-2", TMAX - 3),
+                  ("10^16+2^53", 10 ** 16 + 2 ** 53), ("400 days", 400 * 24 * HOUR + 987654321)):
+        one = [(100, 100)]
+        ts = [B - 3, B - 2, B - 1, B, B + 1, B + 2, B + 2, B + 3]
+        seq = [("E", 0), ("E", 1), ("X", 1), ("E", 2), ("X", 2), ("E", 1), ("X", 1), ("X", 0)]
+        out.append(Trace(A, one, [(k, 100, s_, t) for (k, s_), t in zip(seq, ts)], desc="time boundary %s, one task" % nm))
+        two = [(4194300, 4194300), (2 ** 31 - 1, 4194300)]
+        m, th = two[0][0], two[1][0]
+        # the thread's two calls stay open; its second record ties with a record of the main task
+        recs = [("E", m, 0, B - 3), ("E", m, 1, B - 2), ("X", m, 1, B - 1), ("E", th, 0, B), ("E", m, 2, B + 1),
+                ("E", th, 1, B + 1), ("X", m, 2, B + 2), ("X", m, 0, B + 3)]
+        out.append(Trace(A, two, recs, desc="time boundary %s, thread with tid 2^31-1, open calls" % nm))
+    # durations on the boundaries between the units of print_time_unit (us ms s m h)
+    for nm, durs in (("unit switches", [999, 1000, 999999, 10 ** 6, 999999999, SEC, 59 * SEC + 999999999, MIN]),
+                     ("minutes and hours", [23 * MIN + 59 * SEC + 999999999, 24 * MIN, 30 * MIN, 59 * MIN + 59 * SEC, HOUR,
+                                            HOUR + MIN, 24 * HOUR, 100 * HOUR]),
+                     ("2^31 2^32 2^53", [2 ** 31 - 1, 2 ** 31, 2 ** 32 - 1, 2 ** 32, 2 ** 32 + 1, 999 * HOUR, 2 ** 53 - 1, 2 ** 53 + 1])):
+        t = 5000
+        recs = [("E", 100, 0, t)]
+        for j, d in enumerate(durs):
+            s_ = 1 + j % 2
+            recs += [("E", 100, s_, t + 1), ("E", 100, 3, t + 2), ("X", 100, 3, t + 2 + d), ("X", 100, s_, t + 3 + d)]
+            t += d + 4
+        recs.append(("X", 100, 0, t + 1))
+        out.append(Trace(A + [b"leaf"], [(100, 100)], recs, desc="durations: " + nm))
+    return out
 
 
 def attach_values(rng, tr, p_none=0.1):
@@ -707,7 +818,7 @@ def reference(tr):
     for kind, tid, s, t in (r[:4] for r in tr.visible()):
         last[tid] = t
         name = tr.names[s]
-        if kind == "E":
+        if kind in ("E", "P"):
             path = tuple(calls[i]["path"][-1] for i in stack[tid]) + (name,)
             calls.append({"path": path, "t0": t, "t1": None, "kids": [], "tid": tid})
             if stack[tid]:
@@ -790,7 +901,8 @@ def mon_event_args(tr, g, ph, ev):
 
 def mon_chrome(tr, out_bytes):
     try:
-        doc = json.loads(out_bytes.decode("utf-8"), parse_constant=_strict_const)
+        # numbers are read exactly: integers as Python int, everything else as Decimal (never a binary float)
+        doc = json.loads(out_bytes.decode("utf-8"), parse_constant=_strict_const, parse_float=decimal.Decimal)
     except Exception as ex:                          # noqa
         return "not valid JSON: %s" % str(ex)[:120]
     if not isinstance(doc, dict) or "traceEvents" not in doc:
@@ -814,6 +926,8 @@ def mon_chrome(tr, out_bytes):
             return "event %r does not match record %r" % (g, (ph, tid, t))
         if int(us) * 1000 + int(ns) != t:
             return "ts %s.%s is not time %d / 1000" % (us.decode(), ns.decode(), t)
+        if isinstance(g.get("ts"), float) or g.get("ts") * 1000 != t:
+            return "the number ts = %s, times 1000, is not the record time %d" % (g.get("ts"), t)
         shown = shown_ref(name)
         if len(esc_ref(name)) >= CAP - 6:
             # does not fit name_buf: a prefix (cut between two escapes) is what can be shown
@@ -905,7 +1019,8 @@ GROUPS = (b"   ", b" | ", b" +-", b"---")
 
 
 def parse_graph(out_bytes):
-    """`uftrace graph -f total,self` -> list of (path tuple, calls, total, self) or an error string"""
+    """`uftrace graph -f total,self` -> list of (path tuple, calls, total field, self field) or an error string;
+    the two time fields are the printed text ("1.500 us", blank for 0)"""
     nodes, last_at = [], {}
     started = False
     for line in out_bytes.split(b"\n"):
@@ -927,14 +1042,6 @@ def parse_graph(out_bytes):
                 continue                             # blank separator between siblings
             return "unparsable node %r" % line[:80]
         marker = ind > 0 and (b"+-" in rest[:ind * 3])
-
-        def tm(f):
-            f = f.strip()
-            if not f:
-                return 0
-            v, u = f.split()
-            w, fr = v.split(b".")
-            return (int(w) * 1000 + int(fr)) * {b"us": 1, b"ms": 1000, b"s": 10 ** 6}[u]
         if not nodes:
             parent = None
         elif marker:
@@ -942,18 +1049,40 @@ def parse_graph(out_bytes):
         else:
             parent = len(nodes) - 1
         path = (nodes[parent][0] if parent is not None else ()) + (m.group(2),)
-        nodes.append((path, int(m.group(1)), tm(f1), tm(f2)))
+        nodes.append((path, int(m.group(1)), f1.strip(), f2.strip()))
         last_at[ind] = len(nodes) - 1
     return nodes
 
 
-def disp(ns):
-    """a time as print_time_unit() shows it: three decimals of the unit (us, ms, s)"""
-    if ns < 10 ** 6:
-        return ns
-    if ns < 10 ** 9:
-        return ns // 1000 * 1000
-    return ns // 10 ** 6 * 10 ** 6
+# the documented meaning of the units of a printed time: (ns per unit, ns per step of the three-digit part)
+UNIT_NS = {b"us": (1000, 1), b"ms": (10 ** 6, 1000), b"s": (SEC, 10 ** 6), b"m": (MIN, SEC), b"h": (HOUR, MIN)}
+UNIT_NAMES = ["us", "ms", "s", "m", "h"]
+
+
+def field_interval(f):
+    """a printed time -> (lo, hi): the times it stands for are lo <= t < hi; blank is exactly 0.  Exact integers;
+    999.999 h is the printer's "too big" value"""
+    f = f.strip()
+    if not f:
+        return (0, 1)
+    m = re.fullmatch(rb"(\d+)\.(\d{3}) +(us|ms|s|m|h)", f)
+    if not m:
+        return None
+    unit, sub = UNIT_NS[m.group(3)]
+    lo = int(m.group(1)) * unit + int(m.group(2)) * sub
+    if m.group(3) == b"h" and int(m.group(1)) == 999 and int(m.group(2)) == 999:
+        return (1000 * unit, U64 + 1)      # `if (delta > 999) delta = delta_small = 999;`: 1000 hours and more
+    return (lo, lo + sub)
+
+
+def field_tok(f):
+    return b"_".join(f.split()).decode() or "-"
+
+
+def tunit_tok(res):
+    """the field as the model's `tunit` result says it is printed ("%3lu.%03lu %s")"""
+    w, f, i = res.split()
+    return "%d.%03d_%s" % (int(w), int(f), UNIT_NAMES[int(i)])
 
 
 def mon_graph(tr, out_bytes):
@@ -966,14 +1095,21 @@ def mon_graph(tr, out_bytes):
         return "graph: " + nodes
     root = tr.exename.rsplit(b"/", 1)[-1]
     got = {}
-    for path, n, tot, slf in nodes[1:]:
+    for path, n, f1, f2 in nodes[1:]:
         if path[0] != root or path[1:] in got:
             return "graph: duplicate or misplaced node %r" % (path,)
-        got[path[1:]] = (n, tot, slf)
-    want = {p: (n, disp(tot), disp(slf)) for p, (n, tot, slf) in agg.items()}
-    if got != want:
-        bad = [p for p in set(got) | set(want) if got.get(p) != want.get(p)][:2]
-        return "graph: count/time differ at %r: got %r want %r" % (bad, [got.get(p) for p in bad], [want.get(p) for p in bad])
+        got[path[1:]] = (n, f1, f2)
+    if set(got) != set(agg):
+        bad = sorted(set(got) ^ set(agg))[:2]
+        return "graph: call paths differ at %r" % (bad,)
+    for p_, (n, tot, slf) in agg.items():
+        gn, f1, f2 = got[p_]
+        if gn != n:
+            return "graph: %r has %d calls, shown %d" % (p_, n, gn)
+        for what, val, f in (("total", tot, f1), ("self", slf, f2)):
+            iv = field_interval(f)
+            if iv is None or not (iv[0] <= val < iv[1]):
+                return "graph: %s time of %r is %d ns, shown as %r" % (what, p_, val, f.decode("latin-1"))
     return None
 
 
@@ -1000,7 +1136,18 @@ FINDING_THEOREMS = {
     "S3": "c15_name_buf_safe; c15_prefix_name_buf_overflow_witness, c15_prefix_name_buf_cut_witness",
     "C15-ARGBUF": "c15_args_buf_safe, c15_chrome_no_overflow; c15_prefix_argbuf_overflow_witness, c15_prefix_argbuf_char_witness",
     "C15-ARGSYM": "c15_args_body_valid, c15_chrome_valid_with_args; c15_prefix_argsym_quote_witness",
+    "C15-DUMP-PREEMPT": "c15_chrome_balanced, c15_path_count_time, c15_edge_counts; c15_prefix_preempt_witness",
+    "C15-TIMEUNIT": "c15_time_unit_exact; c15_prefix_time_unit_hours_witness, c15_time_unit_prefix_below_24min",
 }
+
+
+def sample_arg(st):
+    """--sample-time takes at most 9 digits and a unit"""
+    for unit, k in (("s", SEC), ("ms", 10 ** 6), ("us", 1000)):
+        if st % k == 0 and st >= k:
+            return "%d%s" % (st // k, unit)
+    assert st < 10 ** 9
+    return "%dns" % st
 
 
 def plan(tr, rng_st):
@@ -1011,7 +1158,7 @@ def plan(tr, rng_st):
     return [
         ("chrome", "d", True, "dump", ["--chrome"] + (["-t", "1s"] if tr.filtered else []), None, None),
         ("flame0", "n", False, "dump", ["--flame-graph"], "flame {F} 0 " + tail, 0),
-        ("flameS", "d", True, "dump", ["--flame-graph", "--sample-time", "%dns" % rng_st],
+        ("flameS", "d", True, "dump", ["--flame-graph", "--sample-time", sample_arg(rng_st)],
          "flame {F} %d %s" % (rng_st, tail), rng_st),
         ("flameA", "d", True, "dump", ["--flame-graph"], "flame {F} auto:%d %s" % (total, tail), st),
         ("graphviz", "d", True, "dump", ["--graphviz"], None, None),
@@ -1020,8 +1167,9 @@ def plan(tr, rng_st):
     ]
 
 
-def chrome_query(tr, fx, version, date):
-    return "chrome %s %s %s %s %s %s" % (fx, hx(tr.exename), hx(version), hx(date), hx(tr.cmdline), tr.model_tail(with_args=True))
+def chrome_query(tr, fx, version, date, asis=False):
+    return "chrome %s %s %s %s %s %s" % (fx, hx(tr.exename), hx(version), hx(date), hx(tr.cmdline),
+                                         tr.model_tail(with_args=True, asis=asis))
 
 
 def classify_chrome(tr):
@@ -1051,6 +1199,149 @@ def classify_chrome(tr):
     if not tr.visible() and tr.tasks:
         shapes.add("F9b")
     return shapes
+
+
+def add_sched(rng, tr, p=0.5, p_pre=0.5):
+    """scheduling events in the gaps of the trace: after a record of a task that has a call open and is followed by
+    nothing for at least 3 ns, the task is scheduled out (pre-empted or blocking) and in again"""
+    depth = {tid: 0 for tid, _ in tr.tasks}
+    sched = []
+    for j, r in enumerate(tr.recs):
+        kind, tid, _, t = r[:4]
+        depth[tid] += 1 if kind == "E" else -1
+        nxt = tr.recs[j + 1][3] if j + 1 < len(tr.recs) else t + 1000
+        if depth[tid] > 0 and nxt - t >= 3 and rng.random() < p:
+            to = t + 1
+            ti = rng.randrange(to + 1, nxt)
+            sched.append([tid, to, ti, rng.random() < p_pre])
+    tr.sched = sched
+    return tr
+
+
+def close_calls(tr):
+    """append the EXIT records of the calls still open (the time shown for an open call is an estimate)"""
+    stack = {tid: [] for tid, _ in tr.tasks}
+    for r in tr.recs:
+        if r[0] == "E":
+            stack[r[1]].append(r[2])
+        else:
+            stack[r[1]].pop()
+    t = tr.recs[-1][3] if tr.recs else 2000
+    recs = list(tr.recs)
+    for tid, _ in tr.tasks:
+        while stack[tid]:
+            t += 10
+            recs.append(("X", tid, stack[tid].pop(), t))
+    tr.recs = recs
+    return tr
+
+
+def sched_traces(ctx):
+    rng = ctx.rng
+    one = [(100, 100)]
+    A = [b"main", b"foo", b"bar"]
+    base = [("E", 100, 0, 2000), ("E", 100, 1, 2100), ("E", 100, 2, 5000), ("X", 100, 2, 5100), ("X", 100, 1, 9000), ("X", 100, 0, 9100)]
+    out = [Trace(A, one, base, desc="sched: blocked in foo", sched=[[100, 3000, 4000, False]]),
+           Trace(A, one, base, desc="sched: pre-empted in foo (the Lean witness)", sched=[[100, 3000, 4000, True]]),
+           Trace(A, one, base, desc="sched: pre-empted in bar and in main, blocked in foo",
+                 sched=[[100, 2500, 2600, False], [100, 5001, 5002, True], [100, 9001, 9050, True]])]
+    cdir = os.path.join(C.VERIF, "corpus", "C15", "sched")
+    if os.path.isdir(cdir):
+        for f in sorted(os.listdir(cdir)):
+            if f.endswith(".json"):
+                out.append(Trace.from_json(json.load(open(os.path.join(cdir, f)))))
+    for k in range(14 if ctx.tier == "quick" else 400):
+        names = [b"main"] + [rng.choice(PLAIN) + b"%d" % j for j in range(rng.randint(1, 4))]
+        tr = gen_trace(rng, names=names, desc="random+sched", timing=rng.choice(["small", "base"]))
+        tr.exename, tr.cmdline = b"/synth/prog", b"uftrace record ./prog"
+        out.append(add_sched(rng, close_calls(tr), p=rng.choice([0.2, 0.5, 0.9]), p_pre=rng.choice([0.0, 0.5, 1.0])))
+    return out
+
+
+SCHED_MODES = [("chrome", "d", "dump", ["--chrome"]), ("flame0", "n", "dump", ["--flame-graph"]), ("graphviz", "d", "dump", ["--graphviz"]),
+               ("mermaid", "d", "dump", ["--mermaid"]), ("graph", "d", "graph", ["-f", "total,self"])]
+
+
+def run_sched_family(ctx, uftrace, version, date, report, stats, only=None):
+    """scheduling events (perf-cpu0.dat) in the exporters: blocked and pre-empted tasks"""
+    traces = [only] if only is not None else sched_traces(ctx)
+    root = os.path.join(ctx.scratch, "sd")
+    jobs = []
+    for i, tr in enumerate(traces):
+        for suffix, rd in (("d", True), ("n", False)):
+            tr.write(os.path.join(root, "s%d%s" % (i, suffix)), record_date=rd)
+        for mode, suffix, cmd, args in SCHED_MODES:
+            jobs.append((i, mode, os.path.join(root, "s%d%s" % (i, suffix)), cmd, args))
+    with concurrent.futures.ThreadPoolExecutor(max_workers=min(12, os.cpu_count() or 4)) as ex:
+        results = list(ex.map(lambda j: run_uf(uftrace, j[3], j[2], j[4]), jobs))
+    res = {(j[0], j[1]): r for j, r in zip(jobs, results)}
+    ml, keys = [], []
+    for i, tr in enumerate(traces):
+        vc, vg = tr.view(True), tr.view(False)
+        for asis in (False, True):
+            ml.append(chrome_query(vc, "111", version, date, asis=asis))
+            ml.append("flame 1 0 " + vg.model_tail(asis=asis))
+            ml.append("graphviz %s %s %s %s" % (hx(tr.exename), hx(version), hx(tr.cmdline), vg.model_tail(asis=asis)))
+            ml.append("mermaid %s %s" % (hx(tr.exename), vg.model_tail(asis=asis)))
+            keys += [(i, m, asis) for m in ("chrome", "flame0", "graphviz", "mermaid")]
+        ml.append("graph %s %s" % (hx(tr.exename), vg.model_tail()))       # `uftrace graph` has its own event code (utils/graph.c)
+        keys.append((i, "graph", False))
+    mres = dict(zip(keys, C.run_model("C15", ml)))
+    gns = sorted({int(x) for (i, m, a), mo in mres.items() if m == "graph" for t_ in mo.split() for x in t_.split(":")[3:5]} - {0})
+    tu = dict(zip(gns, (tunit_tok(x) for x in C.run_model("C15", ["tunit 1 %d" % n for n in gns])))) if gns else {}
+    for i, tr in enumerate(traces):
+        vc, vg = tr.view(True), tr.view(False)
+        npre = sum(1 for x in tr.sched if x[3])
+        for mode, suffix, cmd, args in SCHED_MODES:
+            rc, out, errtxt = res[(i, mode)]
+            stats["sched_runs"] += 1
+            san = "AddressSanitizer" in errtxt or "runtime error" in errtxt
+
+            def expd(asis):
+                mo = mres[(i, mode, asis)]
+                if mode == "chrome":
+                    w = mo.split()
+                    return bytes.fromhex(w[1]) if len(w) == 2 and w[1] != "-" else b""
+                return bytes.fromhex(mo) if mo not in ("-", "bad-op") else b""
+            if mode == "graph":
+                nodes = parse_graph(out)
+                implc = nodes if isinstance(nodes, str) else " ".join(
+                    "%d:%s:%d:%s:%s" % (len(p) - 1, hx(p[-1]), n, field_tok(f1), field_tok(f2) if len(p) > 1 else "-") for p, n, f1, f2 in nodes)
+                exp = " ".join("%s:%s:%s:%s:%s" % (a, b, c, tu[int(d)] if int(d) else "-", tu[int(e)] if int(e) else "-")
+                               for a, b, c, d, e in (t_.split(":") for t_ in mres[(i, mode, False)].split()))
+                same, same0 = C.norm(implc) == C.norm(exp), False
+                bad = mon_graph(vg, out)
+            else:
+                exp, exp0 = expd(False), expd(True)
+                got = mermaid_edge_lines(out) or b"" if mode == "mermaid" else out
+                same, same0 = got == exp, (got == exp0 and exp0 != exp)
+                bad = {"chrome": lambda: mon_chrome(vc, out), "flame0": lambda: mon_flame(vg, out, 0),
+                       "graphviz": lambda: mon_graphviz(vg, out), "mermaid": lambda: mon_mermaid(vg, out)}[mode]()
+            if rc != 0 or san:
+                bad = "%s failed: rc=%d %s" % (mode, rc, errtxt[:200])
+            stats["sched_match_fixed_model"] += same
+            stats["sched_match_model_as_it_is"] += same0
+            if same and not bad:
+                continue
+            rep = {"trace": tr.to_json(), "mode": mode, "cmd": [cmd] + args, "rc": rc, "stderr": errtxt[:400], "what": bad,
+                   "impl_output": out[:2500].decode("latin-1"),
+                   "model_fixed": (exp if isinstance(exp, str) else exp.decode("latin-1"))[:2500],
+                   "scheduling_events": len(tr.sched), "of_them_pre_empted": npre}
+            if same0 and npre and rc == 0 and not san:
+                stats["defect_C15-DUMP-PREEMPT"] += 1
+                rep.update({"kind": "property-violated-on-implementation" if bad else "model-code-disagreement",
+                            "finding": "C15-DUMP-PREEMPT", "matches_prefix_model": True, "model_prefix": exp0[:2500].decode("latin-1"),
+                            "theorem": FINDING_THEOREMS["C15-DUMP-PREEMPT"]})
+                if not bad:
+                    rep["what"] = "output equals the model in which the sched-out of a pre-empted task does not reach the dump callbacks"
+                report("C15-DUMP-PREEMPT-s%d-%s" % (i, mode), rep, nfi=not bad, finding="C15-DUMP-PREEMPT")
+                continue
+            rep["kind"] = "property-violated-on-implementation" if bad else "model-code-disagreement"
+            rep["theorem"] = "c15_chrome_balanced, c15_path_count_time, c15_edge_counts (scheduling events as calls)"
+            report("sched-s%d-%s" % (i, mode), rep, nfi=not bad)
+    stats["sched_traces"] += len(traces)
+    stats["sched_events"] += sum(len(t.sched) for t in traces)
+    stats["sched_events_pre_empted"] += sum(1 for t in traces for x in t.sched if x[3])
 
 
 def run(ctx):
@@ -1288,11 +1579,29 @@ def run_cases(ctx, only):
                 report("recogniser-body", {"kind": "model-code-disagreement", "what": "validBody accepted a non-ASCII byte",
                                            "text": p.hex()}, True)
 
+        # the time stamp text of the model, read back exactly (c15_chrome_ts_exact), on the boundaries of the C types
+        tvals = sorted({b_ + d_ for b_ in (0, 1000, 2 ** 31, 2 ** 32, 2 ** 53, 2 ** 63, U64) for d_ in range(-3, 4) if 0 <= b_ + d_ <= U64}
+                       | {rng.randrange(U64 + 1) for _ in range(40)} | {rng.randrange(2 ** 53, 2 ** 55) for _ in range(40)})
+        for t_, l in zip(tvals, C.run_model("C15", ["tsval %d" % t_ for t_ in tvals])):
+            stats["tsval"] += 1
+            w = l.split()
+            if len(w) != 3 or bytes.fromhex(w[0]) != b"%d.%03d" % (t_ // 1000, t_ % 1000) or int(w[1]) * 1000 + int(w[2]) != t_:
+                report("tsval", {"kind": "model-code-disagreement", "what": "Json.tsText / digitsVal of %d" % t_, "model": l,
+                                 "theorem": "c15_chrome_ts_exact"}, True)
+
     # ---- H3: traces ----------------------------------------------------------------------
+    if only is not None and only.sched:
+        run_sched_family(ctx, uftrace, version, date, report, stats, only=only)
+        for k in ctx.known_printed:
+            print(k)
+        for path, nfi in ctx.violations:
+            print("VIOLATION property=C15 %s" % path)
+        return 1 if ctx.violations else 0
     if only is not None:
         traces = [only]
     else:
         traces = corpus_traces()
+        traces += boundary_time_traces()
         nb = boundary_names()
         for i in range(0, len(nb), 4):
             chunk = nb[i:i + 4]
@@ -1320,6 +1629,8 @@ def run_cases(ctx, only):
     plans = []
     for i, tr in enumerate(traces):
         rst = rng.choice([1, 7, 100, 333, 1000, 2500])
+        if tr.recs and tr.recs[-1][3] - tr.recs[0][3] > 2 ** 33 and rng.random() < 0.5:
+            rst = rng.choice([1, 999, 999999999, 4294968 * 1000, 2 ** 33 // 1000 * 1000, SEC, 7 * SEC, 61 * SEC, HOUR])
         pl = plan(tr, rst)
         plans.append(pl)
         big = max([len(n) for n in tr.names] + [0]) > 1500 or tr.filtered or (tr.has_args() and i % 5 != 0)
@@ -1375,6 +1686,27 @@ def run_cases(ctx, only):
             mres.update(zip([(i, "chrome", fx) for i in todo for fx in stage], C.run_model("C15", mlines2)))
             mlines += mlines2
         todo = [i for i in todo if not any(agrees(i, fx) and mres[(i, "chrome", fx)] != mres[(i, "chrome", "111")] for fx in stage)]
+    # the times of the graph model as print_time_unit shows them: the repaired table and the table as it is
+    gns = set()
+    for (i, mode, _), mo in mres.items():
+        if mode == "graph" and traces[i].recs:
+            for t_ in mo.split():
+                f_ = t_.split(":")
+                if len(f_) == 5:
+                    gns.update(int(x) for x in f_[3:5])
+    gns.discard(0)
+    gns = sorted(gns)
+    tu = {}
+    if gns:
+        r1 = C.run_model("C15", ["tunit 1 %d" % n for n in gns])
+        r0 = C.run_model("C15", ["tunit 0 %d" % n for n in gns])
+        for n, a, b in zip(gns, r1, r0):
+            tu[(1, n)], tu[(0, n)] = tunit_tok(a), tunit_tok(b)
+
+    def graph_text(mo, fixed):
+        toks = [t_.split(":") for t_ in mo.split()]
+        return " ".join("%s:%s:%s:%s:%s" % (a, b, c, tu[(fixed, int(d))] if int(d) else "-", tu[(fixed, int(e))] if int(e) else "-")
+                        for a, b, c, d, e in toks)
     ctx.coverage["phase_seconds"] = {"tool_runs_done_at": round(t_runs - ctx.t0, 1), "model_done_at": round(time.time() - ctx.t0, 1),
                                      "model_queries": len(mlines)}
     distinct = set()
@@ -1397,8 +1729,11 @@ def run_cases(ctx, only):
                 exp1 = mod["111"][1]
                 shapes = classify_chrome(tr)
                 kinds = tuple(sorted({sp["k"] for fn in tr.argfns.values() for sp in fn["args"] + ([fn["ret"]] if fn.get("ret") else [])}))
+                t_first = tr.recs[0][3] if tr.recs else 0
                 distinct.add(("chrome", tuple(sorted(shapes)), len(tr.recs) > 0, len(tr.tasks), any(p != t for t, p in tr.tasks), kinds,
-                              tuple(fx for fx in combos if mod[fx] != mod["111"])))
+                              tuple(fx for fx in combos if mod[fx] != mod["111"]), t_first.bit_length() // 8))
+                stats["chrome_runs_first_time_ge_2^53"] += t_first >= 2 ** 53
+                stats["chrome_events_time_ge_2^53"] += sum(1 for r in tr.visible() if r[3] >= 2 ** 53)
                 bad = None
                 if rc != 0 or san:
                     bad = "dump --chrome failed: rc=%d %s" % (rc, errtxt.strip().split("\n")[1][:160] if san and "\n" in errtxt.strip() else errtxt[:160])
@@ -1465,18 +1800,21 @@ def run_cases(ctx, only):
                 continue
             # the graph family
             mo = mres[(i, mode, 1)]
+            gsame0 = False
             if mode == "graph":
                 nodes = parse_graph(out)
                 if isinstance(nodes, str):
                     implc = nodes
                 else:
-                    implc = " ".join("%d:%s:%d:%d:%d" % (len(p) - 1, hx(p[-1]), n, tot, slf if len(p) > 1 else 0)
-                                     for p, n, tot, slf in nodes)
-                exp = ""
+                    implc = " ".join("%d:%s:%d:%s:%s" % (len(p) - 1, hx(p[-1]), n, field_tok(f1), field_tok(f2) if len(p) > 1 else "-")
+                                     for p, n, f1, f2 in nodes)
+                exp, gexp0 = "", ""
                 if tr.recs:
-                    toks = [t.split(":") for t in mo.split()]
-                    exp = " ".join("%s:%s:%s:%d:%d" % (a, b, c, disp(int(d)), disp(int(e))) for a, b, c, d, e in toks)
+                    exp, gexp0 = graph_text(mo, 1), graph_text(mo, 0)
                 same = C.norm(implc) == C.norm(exp)
+                gsame0 = C.norm(implc) == C.norm(gexp0) and gexp0 != exp
+                stats["graph_match_fixed_model"] += same
+                stats["graph_match_prefix_model"] += C.norm(implc) == C.norm(gexp0)
                 bad = mon_graph(tr, out)
             else:
                 exp = bytes.fromhex(mo) if mo not in ("-", "bad-op") else b""
@@ -1493,7 +1831,12 @@ def run_cases(ctx, only):
             if rc != 0 or san:
                 bad = "%s failed: rc=%d %s" % (mode, rc, errtxt[:200])
             calls, _ = reference(tr)
-            distinct.add((mode, len(ref_paths(calls)), len(tr.tasks), extra, any(c["t1"] is None for c in calls)))
+            t_first = tr.recs[0][3] if tr.recs else 0
+            t_span = (tr.recs[-1][3] - t_first) if tr.recs else 0
+            distinct.add((mode, len(ref_paths(calls)), len(tr.tasks), extra, any(c["t1"] is None for c in calls),
+                          t_first.bit_length() // 8, t_span.bit_length() // 8))
+            stats["runs_first_time_ge_2^53"] += t_first >= 2 ** 53
+            stats["runs_span_ge_24min"] += t_span >= 24 * MIN
             same0 = False
             if mode.startswith("flame"):
                 m0 = mres[(i, mode, 0)]
@@ -1501,8 +1844,17 @@ def run_cases(ctx, only):
                 same0 = out == exp0 and rc == 0 and not san
                 stats["flame_match_prefix_model"] += same0
                 stats["flame_match_fixed_model"] += same
-            stats["graph_family_match"] += (same or same0) and not bad
-            if (same or same0) and not bad:
+            stats["graph_family_match"] += (same or same0 or gsame0) and not bad
+            if (same or same0 or gsame0) and not bad:
+                continue
+            if mode == "graph" and gsame0 and rc == 0 and not san:
+                # the output is what the unit table as it is (24 "minutes per hour") prints and differs from the repaired one
+                stats["defect_C15-TIMEUNIT"] += 1
+                rep.update({"what": bad or "times of 24 minutes and more are shown in a unit of 24 minutes labelled h",
+                            "impl_output": out[:3000].decode("latin-1"), "model_fixed": exp[:3000], "model_prefix": gexp0[:3000],
+                            "matches_prefix_model": True, "kind": "property-violated-on-implementation" if bad else "model-code-disagreement",
+                            "finding": "C15-TIMEUNIT", "theorem": FINDING_THEOREMS["C15-TIMEUNIT"]})
+                report("C15-TIMEUNIT-t%d" % i, rep, nfi=not bad, finding="C15-TIMEUNIT")
                 continue
             if bad and same0 and exp0 != exp:
                 stats["defect_F9c"] += 1
@@ -1514,7 +1866,7 @@ def run_cases(ctx, only):
                 continue
             rep.update({"what": bad, "impl_output": out[:3000].decode("latin-1"),
                         "model_output": (exp[:3000].decode("latin-1") if isinstance(exp, bytes) else exp[:3000])})
-            thm = {"graph": "c15_path_count_time", "graphviz": "c15_edge_counts", "mermaid": "c15_edge_counts"}.get(mode, "c15_flame_lines")
+            thm = {"graph": "c15_path_count_time, c15_time_unit_exact", "graphviz": "c15_edge_counts", "mermaid": "c15_edge_counts"}.get(mode, "c15_flame_lines")
             rep["theorem"] = thm
             if bad:
                 rep["kind"] = "property-violated-on-implementation"
@@ -1523,6 +1875,8 @@ def run_cases(ctx, only):
                 rep["kind"] = "model-code-disagreement"
                 report("%s-corr-t%d" % (mode, i), rep, True)
 
+    if only is None:
+        run_sched_family(ctx, uftrace, version, date, report, stats)
     if only is not None:
         for k in ctx.known_printed:
             print(k)
@@ -1530,7 +1884,7 @@ def run_cases(ctx, only):
             print("VIOLATION property=C15 %s" % path)
         return 1 if ctx.violations else 0
     ctx.coverage.update({
-        "evaluations": stats["runs"] + stats["h4"] + stats["json_probe"] + stats["body_probe"],
+        "evaluations": stats["runs"] + stats["sched_runs"] + stats["h4"] + stats["json_probe"] + stats["body_probe"] + stats["tsval"],
         "distinct_nontrivial": len(distinct) + 256 + 255,
         "rule": "H4: print_json_escaped_char and json_quote on each of the 256 (255) byte values, on the string of all of them, and on "
                 "random strings, model vs code, exhaustive in the byte; the Lean JSON recogniser against Python's strict json on seeded "
@@ -1541,8 +1895,28 @@ def run_cases(ctx, only):
                 "text has 1990..2062 bytes (one string with each kind of final escape, std::string, return values, mixed lists, "
                 "twelve strings), random traces with 1-4 argument functions (specs of 0-8 values from s S c p d/i/u/x/o 8-64 f e t, "
                 "pointers into hostile symbols), each compared with the model under all 8 combinations of the repairs; "
+                "numeric range: record times 1 ns apart across 2^31, 2^32, 2^53, 2^63 and up to 2^64-2 (one task; a thread with tid 2^31-1), "
+                "durations on every unit switch of print_time_unit (999 ns .. 100 h, 2^31, 2^32, 2^53), and every random trace drawn "
+                "from a timing class (small | first time next to 2^31/2^32/2^53/2^63 or 104/400 days of uptime | increments up to hours "
+                "and 2^48 | last record at 2^64-2), tids up to 2^31-1, sample times up to 61 s; all arithmetic on the check's side is "
+                "exact (Python int, JSON numbers read as Decimal); "
+                "scheduling events: traces with a perf-cpu0.dat in which tasks are scheduled out (blocked or pre-empted) and in again "
+                "inside open calls x {chrome, flame, graphviz, mermaid, graph}, each compared with the model (events as calls named "
+                "linux:schedule) and with the model of dump_replay_event as it is; "
                 "distinct = distinct (mode, number of call paths, tasks, sampling, open calls) / (defect shapes, tasks) classes",
         "traces": len(traces),
+        "scheduling_events": {"traces": stats["sched_traces"], "events": stats["sched_events"],
+                              "pre_empted": stats["sched_events_pre_empted"], "tool_runs": stats["sched_runs"],
+                              "runs_matching_fixed_model": stats["sched_match_fixed_model"],
+                              "runs_matching_model_as_it_is_only": stats["sched_match_model_as_it_is"]},
+        "numeric_range": {"ts_text_values_read_back": stats["tsval"],
+                          "chrome_runs_with_first_time_ge_2^53": stats["chrome_runs_first_time_ge_2^53"],
+                          "chrome_events_with_time_ge_2^53": stats["chrome_events_time_ge_2^53"],
+                          "graph_family_runs_with_first_time_ge_2^53": stats["runs_first_time_ge_2^53"],
+                          "graph_family_runs_spanning_24_minutes_or_more": stats["runs_span_ge_24min"],
+                          "graph_runs_matching_fixed_time_unit_model": stats["graph_match_fixed_model"],
+                          "graph_runs_matching_time_unit_table_as_it_is": stats["graph_match_prefix_model"],
+                          "timing_classes": {k: sum(1 for t_ in traces if t_.desc.endswith("[%s]" % k)) for k in sorted(set(TIMINGS))}},
         "runs_per_mode": {m: stats["run_" + m] for m in MODES},
         "h4_cases": stats["h4"], "h4_disagreements": stats["h4_disagree"],
         "json_recogniser_probes": stats["json_probe"], "json_recogniser_probes_valid": stats["json_probe_valid"],
@@ -1574,6 +1948,8 @@ def run_cases(ctx, only):
         "of the printf formats (integers, floats, %p, <ENUM?>, struct) is computed by the check and handed to the model as given "
         "text, enum names and struct type names come from a fixed harmless set; --color=no",
         "the sampled flame count is specified as in the comment of adjust_fg_time: (time - sum over child calls of floor(dur/st)*st) / st",
+        "record times are any uint64 value below 2^64-1 (that value is the readers' end-of-data mark), non-decreasing per task; one trace spans less than 2^62 ns and a single duration is below "
+        "2^63 ns (print_time_unit takes an int64_t); a printed time W.FFF unit is read as W units + FFF steps (ns, us, ms, seconds, minutes)",
     ]
     return C.finish(ctx)
 
